@@ -1,5 +1,5 @@
 """Human-written texts of MANIFEST.json (claims per property)."""
-HOOK_COMMITS = ["f456a54", "3fe5350", "05ec647", "9178bf1"]
+HOOK_COMMITS = ["f456a54", "3fe5350", "05ec647", "9178bf1", "9a4d3da"]
 NOTES = ("Every check = tools/vcheck <id>: regenerate UmGen tables from /repo/src, lake build the property's theorem "
          "module and audit #print axioms, rebuild the harness against /repo's working tree, run corpus + generated "
          "correspondence streams (real code vs compiled Lean model), decide, write evidence. See DESIGN.md.")
